@@ -221,3 +221,52 @@ Proof.
       rewrite Hs. cbn [andb]. rewrite parse_digits_digits by lia.
       change (- Z.of_N (N.pos p))%Z with (Z.neg p). rewrite Hr. reflexivity.
 Qed.
+
+(* ---------- what is accepted fits (C02) ---------- *)
+Lemma wrap_in_range t u : (u < 2 ^ ity_bits t)%N -> in_range t (wrap t u) = true.
+Proof.
+  intros Hu. unfold in_range, wrap. rewrite N.mod_small by exact Hu.
+  assert (Hb : (1 <= ity_bits t)%N) by (destruct t; cbn; lia).
+  assert (Hp : (2 ^ Z.of_N (ity_bits t) = 2 * 2 ^ (Z.of_N (ity_bits t) - 1))%Z).
+  { replace (Z.of_N (ity_bits t)) with (Z.succ (Z.of_N (ity_bits t) - 1)) at 1 by lia. rewrite Z.pow_succ_r by lia. reflexivity. }
+  assert (HB : Z.of_N (2 ^ (ity_bits t - 1)) = (2 ^ (Z.of_N (ity_bits t) - 1))%Z).
+  { rewrite N2Z.inj_pow. f_equal. lia. }
+  assert (HU : (Z.of_N u < 2 ^ Z.of_N (ity_bits t))%Z).
+  { apply N2Z.inj_lt in Hu. rewrite N2Z.inj_pow in Hu. exact Hu. }
+  assert (Hpos : (0 < 2 ^ (Z.of_N (ity_bits t) - 1))%Z) by (apply Z.pow_pos_nonneg; lia).
+  remember (2 ^ (Z.of_N (ity_bits t) - 1))%Z as B.
+  remember (2 ^ Z.of_N (ity_bits t))%Z as P.
+  destruct (ity_signed t); cbn [andb].
+  - destruct (N.leb_spec (2 ^ (ity_bits t - 1)) u) as [L|L].
+    + apply N2Z.inj_le in L. rewrite HB in L. lia.
+    + apply N2Z.inj_lt in L. rewrite HB in L. lia.
+  - lia.
+Qed.
+
+Theorem get_integer_in_range t text v hex : get_integer_text t text = Some (v, hex) -> in_range t v = true.
+Proof.
+  unfold get_integer_text.
+  destruct ((2 <? length text)%nat && is_hex_prefixed text).
+  - destruct (parse_u64_hex (skipn 2 text)) as [u|]; [|discriminate].
+    destruct (u <? 2 ^ ity_bits t) eqn:E; [|discriminate]. intros H. inversion H; subst.
+    apply wrap_in_range. lia.
+  - unfold parse_dec.
+    destruct (match text with
+              | [] => (false, text)
+              | c :: r => if aeq c "+" then (false, r) else if aeq c "-" && ity_signed t then (true, r) else (false, text)
+              end) as [neg body].
+    destruct (parse_digits 10 body) as [d|]; [|discriminate].
+    destruct (in_range t (if neg then (- Z.of_N d)%Z else Z.of_N d)) eqn:E; [|discriminate].
+    intros H. inversion H; subst. exact E.
+Qed.
+
+Theorem get_integer_hex_fits t text v : get_integer_text t text = Some (v, true) ->
+  exists u, parse_u64_hex (skipn 2 text) = Some u /\ (u < 2 ^ ity_bits t)%N /\ v = wrap t u.
+Proof.
+  unfold get_integer_text.
+  destruct ((2 <? length text)%nat && is_hex_prefixed text).
+  - destruct (parse_u64_hex (skipn 2 text)) as [u|]; [|discriminate].
+    destruct (u <? 2 ^ ity_bits t) eqn:E; [|discriminate]. intros H. inversion H; subst.
+    exists u. repeat split; [lia].
+  - destruct (parse_dec t text); [|discriminate]. intros H. inversion H.
+Qed.
